@@ -182,7 +182,14 @@ impl Reasoner {
                 }
             }
         }
-        repairs
+        // The search order is arbitrary, so a consistent subset can be found before a
+        // consistent superset of it: keep only the subset-maximal ones.
+        let maximal: Vec<HashSet<Triple>> = repairs
+            .iter()
+            .filter(|r| !repairs.iter().any(|o| o.len() > r.len() && o.is_superset(r)))
+            .cloned()
+            .collect();
+        maximal
     }
 }
 
